@@ -254,12 +254,6 @@ impl Model {
                 work.push(t);
             }
         }
-        for &t in &self.raws {
-            if !seen[t as usize] {
-                seen[t as usize] = true;
-                work.push(t);
-            }
-        }
         for (i, o) in self.objs.iter().enumerate() {
             if o.loose && o.st == St::Alive && !seen[i] {
                 seen[i] = true;
@@ -280,6 +274,23 @@ impl Model {
                     if parent[v as usize].is_some() || o.loose {
                         parent[t as usize] = Some(HLoc::Slot(v, j));
                     }
+                    work.push(t);
+                }
+            }
+        }
+        // second pass: objects only reachable through raw pointers (no path)
+        for &t in &self.raws {
+            if !seen[t as usize] {
+                seen[t as usize] = true;
+                work.push(t);
+            }
+        }
+        while qi < work.len() {
+            let v = work[qi];
+            qi += 1;
+            for &t in self.objs[v as usize].slots.iter() {
+                if !seen[t as usize] {
+                    seen[t as usize] = true;
                     work.push(t);
                 }
             }
